@@ -5,7 +5,8 @@
                                                    the model works on the remaining-bytes view, i.e. the concatenation
    cfg     ROLE CALLS G Q                          connection setup after the builder setter calls CALLS (NAME=V,... in call order, - = none);
                                                    G = grease draw (model only), Q = write quantum of the transport (impl only)
-   rx      ROLE CALLS LENFORM PAYLOAD TAIL CHUNK   a connection built with CALLS receives 00 ++ SETTINGS(PAYLOAD) ++ TAIL on the peer's control stream
+   rx      ROLE CALLS LENFORM PAYLOAD TAIL CHUNK PRE   a connection built with CALLS receives 00 ++ SETTINGS(PAYLOAD) ++ TAIL on the peer's control stream,
+                                                   which the peer opens after the other uni streams PRE (impl only: they must not matter)
    dflt                                            values in force before any SETTINGS
    each line prints `<model> | <spec>` *)
 let get_ids = List.map n_of_string ["0"; "1"; "6"; "7"; "8"; "51"; "727725890"; "727725891"]
@@ -106,7 +107,7 @@ let handle ws = match ws with
                (List.map (fun (id, v) -> string_of_n id ^ ":" ^ string_of_n v)
                   (rfc_config_pairs mfs (ov O_wt = one) (ov O_ec = one) (ov O_dg = one) wtmax)) in
       m ^ " | " ^ s
-  | ["rx"; _role; _calls; form; payload; tail; _chunk] ->
+  | ["rx"; _role; _calls; form; payload; tail; _chunk; _pre] ->
       let p = bytes_of_hex payload and t = bytes_of_hex tail in
       let bytes = n_of_int 4 :: (lenenc (int_of_string form) (len p) @ p @ t) in
       let m = (match recv_control (nat_of_int 10) bytes init_peer with
